@@ -52,6 +52,23 @@ Theorem C15_refused_is_inert : forall r,
 Proof. exact refused_is_inert. Qed.
 Print Assumptions C15_refused_is_inert.
 
+(* T4 as non-interference over the whole handler model (POST, OPTIONS, HEAD, other methods,
+   WebSocket handshake): a refused request changes no state - no call into the core, no new
+   member of the WebSocket client set - and carries none of the handlers' headers *)
+Theorem C15_refused_changes_nothing : forall r st,
+  400 <= status (handle r) ->
+  apply_response st (handle r) = st /\
+  acao (handle r) = None /\ acah (handle r) = false /\ extra (handle r) = false.
+Proof. exact refused_changes_nothing. Qed.
+Print Assumptions C15_refused_changes_nothing.
+
+Theorem C15_state_change_needs_acceptance : forall r st,
+  apply_response st (handle r) <> st ->
+  (r_kind r = Post /\ status (handle r) = 200 /\ r_body r = true) \/
+  (r_kind r = WsHandshake /\ status (handle r) = 101).
+Proof. exact state_change_needs_acceptance. Qed.
+Print Assumptions C15_state_change_needs_acceptance.
+
 Theorem C15_policy_reject_is_refusal : forall r,
   r_csrf r = true ->
   match r_kind r with
@@ -59,6 +76,8 @@ Theorem C15_policy_reject_is_refusal : forall r,
   | Options => check_origin (r_orc r) (r_allow r) (r_origin r) (r_host r) <> Ok true
   | WsHandshake => exists o, effective_ws_origin r = Some o /\
                              check_origin (r_orc r) (r_allow r) (Some o) (r_host r) <> Ok true
+  | Head => False
+  | OtherMethod => True
   end ->
   400 <= status (handle r).
 Proof. exact policy_reject_is_refusal. Qed.
@@ -71,6 +90,8 @@ Theorem C15_protection_off_accepts_all : forall r,
   | Post => status (handle r) = 200 /\ reaches_core (handle r) = r_body r
   | Options => status (handle r) = 204
   | WsHandshake => status (handle r) = 101 /\ reaches_core (handle r) = true
+  | Head => status (handle r) = 200
+  | OtherMethod => status (handle r) = 405
   end.
 Proof. exact protection_off_accepts_all. Qed.
 Print Assumptions C15_protection_off_accepts_all.
@@ -86,6 +107,25 @@ Theorem C15_allow_case_insensitive : forall items n,
   In (lower n) (config_allow items) <-> exists i, In i items /\ lower i = lower n.
 Proof. exact allow_case_insensitive. Qed.
 Print Assumptions C15_allow_case_insensitive.
+
+(* from the text of http/allowed_origins to the set the handlers hold: the parse either
+   raises ValueError (exactly when an entry is empty after the second decode + strip) or
+   yields non-empty, lower-case entries, and a lower-cased netloc is a member iff some
+   configured entry equals it modulo case - the whole netloc, port included *)
+Theorem C15_config_parse_sound : forall text vs,
+  parse_allowed_origins text = Ok vs ->
+  (forall v, In v vs -> lower v = v /\ v <> []) /\
+  (forall n, In (lower n) vs <->
+             exists it, In it (cfg_items (cfg_decode text)) /\
+                        lower (strip (cfg_decode it)) = lower n).
+Proof. exact parse_allowed_origins_sound. Qed.
+Print Assumptions C15_config_parse_sound.
+
+Theorem C15_config_parse_raises : forall text,
+  (exists it, In it (cfg_items (cfg_decode text)) /\ strip (cfg_decode it) = []) <->
+  parse_allowed_origins text = Raise ValueError.
+Proof. exact parse_allowed_origins_raises. Qed.
+Print Assumptions C15_config_parse_raises.
 
 (* what the transcribed netloc is: free of "/?#" and TAB/CR/LF; and for an Origin as a
    browser serialises it (scheme "://" host[:port]) exactly host[:port] *)
@@ -115,6 +155,6 @@ Theorem C15_same_origin_browser_accepted : forall r scheme hp,
   r_csrf r = true -> r_kind r = Options -> scheme_wf scheme -> hostport_wf hp -> hp <> [] ->
   is_ascii_str hp = true -> has 91 hp = false -> has 93 hp = false ->
   r_origin r = Some (browser_origin scheme hp) -> r_host r = Some (lower hp) ->
-  handle r = mkResp 204 (Some (browser_origin scheme hp)) true false.
+  handle r = mkResp 204 (Some (browser_origin scheme hp)) true false false false.
 Proof. exact same_origin_browser_accepted. Qed.
 Print Assumptions C15_same_origin_browser_accepted.
